@@ -88,6 +88,11 @@ def run(repo, res, tier):
     res.rule("PB-HAS", "conditionally written optional fields are read under HasField", 8)
     res.rule("PB-NULL", "builders are total on default-constructed objects", 5)
     res.rule("PB-GUARD", "a value is written whenever it is present: presence tests are None tests, not truthiness of a scalar", 10)
+    res.rule("PB-FRESH", "every public write method starts from a fresh document before it fills it", 2)
+    from .c15 import fresh_document_records
+
+    for qn_, f_, ok_, mod_, site_, in_fn in fresh_document_records(repo, "commonroad/common/writer/file_writer_protobuf.py", "ProtobufFileWriter"):
+        res.check("PB-FRESH", "%s: self.%s re-created before it is filled" % (qn_, f_), ok_, mod_, site_, "%s fills self.%s (%s in %s) without re-creating it first" % (qn_, f_, norm(site_)[:60], in_fn), "repeated fields filled by an earlier write call are still in the message: the second file of a writer holds every lanelet, obstacle and planning problem twice and does not read back", qualname=qn_)
     res.rule("PB-KEY", "goal lanelets are keyed by the position of their goal state on both sides", 3)
     protos = load_protos(repo)
     w = WriterPB(repo)
